@@ -17,7 +17,7 @@ Extraction "model.ml"
   mp_ser mp_run json_stream mp_stream
   as_int as_float is_int is_float I8 U8 I16 U16 I32 U32 I64 U64
   compare op_eq op_ne op_lt op_le op_gt op_ge
-  init_world step live get doc_of to_jv ids invalidates_handles set_on_unbound chain_get chain_set add_typed nest_typed doc_move
+  init_world step live get doc_of to_jv ids invalidates_handles set_on_unbound chain_get chain_set add_typed nest_typed doc_move proxy_assign get_or_add_level get_level
   ps0 pstep alloc_from_last max_pools count sp_add sp_deref sp_refs
   a_init astep elements
   copy_array_1d copy_array_2d copy_string
